@@ -12,6 +12,18 @@ for _i in (3, 4, 5, 6, 8, 9, 10, 11, 12, 13, 14, 15, 16, 17, 19, 20):
     NOT_APPLICABLE.setdefault(f"C{_i:02d}", _NOT_BUILT)
 
 CHECKS = {
+    "C13": {
+        "text": ("Deductive, unbounded: file_line_patterns (which path:line patterns apply to a file), BaseCodemod._process_file (the line "
+                 "lists handed to the file context: relative spelling must apply, nothing but matching patterns may), match_line, "
+                 "filter_by_path_includes_or_excludes (sandwich taken from the statement: excluded line rejected, non-included line rejected, "
+                 "permitted lines accepted), node_is_selected (= result filter AND line filter) and the change-reporting helpers "
+                 "(report_change/add_change/...: the change entry's lineNumber is the node's start line) are verified against contracts; "
+                 "all obligations discharged by z3 on each run."),
+        "note": ("Trusted: libcst PositionProvider (node_position uninterpreted, 1 <= start.line <= end.line), fnmatch.fnmatch (pure predicate), "
+                 "str.split/int() as uninterpreted functions with the listed axioms; the per-codemod callback on_result_found (assumed to touch only "
+                 "its file context lists). Whether each individual transformer consults the filter is the guard-obligation scan (when listed in evidence)."),
+        "design_ref": "DESIGN.md section 4 C13",
+    },
     "C06": {
         "text": ("Deductive, unbounded: the location-matching kernel (Result.match_location sandwich, same_line, fuzzy_column_match), "
                  "the result filter of every libcst transformer (results_for_node, filter_by_result, node_is_selected) and the findings "
